@@ -172,6 +172,38 @@ def gen_case(rng, i, tier, stats):
     return case
 
 
+def gen_poll_case(rng, i, tier, stats):
+    """early polling of a streamed utterance (closer, class of seeded C04-em2): the alignment is requested after EVERY one of the
+    first calls of decoder_process_* — after 0 (directive `early`), 1, 2, 3 … frames searched — so that the requests which are
+    legitimately REFUSED (no hypothesis yet, only null transitions) are made too, each followed by more audio and by later
+    requests that are judged as usual (AlignOK against the first-pass segmentation at that point, wrapper model, JSON)."""
+    case = gen_case(rng, f"poll{i}", tier, stats)
+    case["id"] = f"p{i}"
+    an = case["audio_name"]
+    shift = 80 if an == "austen8k" else 160
+    total = case["audio"][3]
+    case["mode"] = rng.choice(["stream", "stream", "nogrow"])
+    stats["mode"][case["mode"]] = stats["mode"].get(case["mode"], 0) + 1
+    # call size: from one frame shift to ~6 frames; the first call may be shorter than an analysis window
+    case["chunk"] = rng.choice([shift, 2 * shift, shift * 2 + shift // 2, 3 * shift, 512, 640, 800, 1024])
+    case["chunkseq"] = [[rng.range(1, shift * 3), 1]] if rng.chance(0.3) else []
+    ncalls = max(1, (total + case["chunk"] - 1) // case["chunk"])
+    # every call of the first ~60-150 frames, thinned to at most K requests (all of the very first ones are kept)
+    horizon = min(ncalls, (rng.range(60, 150) * shift) // case["chunk"] + 1)
+    K = 10 if tier == "quick" else 24
+    first = list(range(min(horizon, 6)))
+    rest = list(range(len(first), horizon))
+    rng.shuffle(rest)
+    later = [rng.range(horizon, ncalls - 1)] if ncalls - 1 > horizon and rng.chance(0.6) else []
+    case["partials"] = sorted(set(first + rest[:max(0, K - len(first))] + later))
+    case["early"] = int(rng.chance(0.5))
+    case["preend"] = int(rng.chance(0.5))
+    case["dumpsen"], case["tmatskip"], case["noise"] = 0, 0, None
+    stats["extra"]["early-polling cases"] = stats["extra"].get("early-polling cases", 0) + 1
+    stats["extra"]["early-polling requests"] = stats["extra"].get("early-polling requests", 0) + len(case["partials"]) + case["early"]
+    return case
+
+
 # ---- the JSON observation point: decoder_result_json(d, start, align_level) --------------------------------------
 # positions of the utterance: zero, positive, negative, fractional (1/3, a %.3f tie, below the rendered precision),
 # large (an hour, a day).  |start| <= 1e5 so that the double rounding of start + frame/frate stays below EPS.
@@ -339,6 +371,9 @@ def case_text(case):
         rp = case.get("renormprobe", RENORM_DEFAULT)
         if rp:
             ls.append(f"renormprobe {rp}")
+        dp = case.get("deadprobe", 2)
+        if dp and not case.get("tmatskip"):
+            ls.append(f"deadprobe {dp}")
     js = case.get("json", JSON_DEFAULT)
     if js:
         ls.append("json " + " ".join(f"{lv}:{st}" for lv, st in js))
@@ -444,6 +479,77 @@ def kv(line):
     return dict(x.split("=", 1) for x in line.split()[1:] if "=" in x)
 
 
+def judge_wrap(hb, db, tag, outframe, a, reuse, hW, stats):
+    """the wrapper model (Wrap.request, run by the driver over the request sequence of the case) against what
+    decoder_alignment did in this request: NULL / alignment, word list, frames seen by the aligner, repeated call"""
+    wl = next((l for l in db if l.startswith("WRAP ")), None)
+    if wl is None:
+        return [{"what": "driver printed no WRAP line (wrapper model)", "detail": hb[0], "impl": False, "key": None, "tie": True}]
+    wd = kv(wl)
+    stats["wrap_requests"] += 1
+    stats["wrap_c1"][wd.get("c1")] = stats["wrap_c1"].get(wd.get("c1"), 0) + 1
+    stats["wrap_c2"][wd.get("c2")] = stats["wrap_c2"].get(wd.get("c2"), 0) + 1
+    kindk = "final" if tag.endswith("final") else "preend" if tag.endswith("preend") else "partial"
+    stats["wrap_kind"][kindk] = stats["wrap_kind"].get(kindk, 0) + 1
+    diffs = []
+    c_null = a.startswith("A null")
+    m_null = wd.get("c1") in ("null", "assert")
+    if c_null != m_null:
+        fin0 = next((l.split() for l in hb if l.startswith("FINAL ")), None)
+        diffs.append(f"decoder_alignment returned {'NULL' if c_null else 'an alignment'}, the wrapper model predicts "
+                     f"c1={wd.get('c1')} (frames seen by the aligner: implementation {fin0[3] if fin0 else '?'}, model T={wd.get('T')}; "
+                     "the model's second pass is the dumped token stack, usable only when the frame counts agree)")
+    if wd.get("c1") == "assert":
+        diffs.append("the wrapper model predicts a failing contiguity assertion, the implementation went on")
+    if not c_null and not m_null:
+        cw = ";".join(f"{w[2]}:{w[4]}:{w[5]}" for w in hW) or "-"
+        if cw != wd.get("words"):
+            diffs.append(f"word list (id:start:duration) differs: implementation {cw} model {wd.get('words')}")
+        fin = next((l.split() for l in hb if l.startswith("FINAL ")), None)
+        if fin is not None:
+            if fin[3] != wd.get("T"):
+                diffs.append(f"the aligner saw {fin[3]} frames, the model predicts T={wd.get('T')}")
+            if int(fin[3]) < outframe:
+                stats["wrap_partial_T_lt_output_frame"] += 1
+        exp2 = {"reuse": "same", "new": "different", "null": "null"}.get(wd.get("c2"), "?")
+        if wd.get("c2") == "reuse" and wd.get("same12") != "1":
+            exp2 = "?"
+        if reuse != exp2:
+            diffs.append(f"repeated call: implementation {reuse}, model c2={wd.get('c2')} same12={wd.get('same12')}")
+        if wd.get("c1") == "reuse":
+            stats["wrap_first_call_reused_earlier_object"] += 1
+        for k in ("pos", "cov", "pron"):
+            if wd.get(k) != "1":
+                diffs.append(f"hypothesis {k} of C04_wrapper_words_are_first_pass is false on the FP lines: {wl[:160]}")
+    elif c_null and m_null:
+        exp2 = {"null": "null"}.get(wd.get("c2"), "nonnull-after-null")
+        if reuse != exp2:
+            diffs.append(f"repeated call after NULL: implementation {reuse}, model c2={wd.get('c2')}")
+    if wd.get("of") != str(outframe):
+        diffs.append(f"model leaves acmod output_frame at {wd.get('of')}, request was made at {outframe}")
+    ofa = next((l.split()[1] for l in hb if l.startswith("OFA ")), None)
+    if ofa is not None:
+        # the real acmod->output_frame after the request against the model's Dec.outFrame after Wrap.request (for a refused
+        # request: the unchanged decoder of C04_wrapper_refused_request_is_noop)
+        stats["wrap_outframe_after_request_compared"] = stats.get("wrap_outframe_after_request_compared", 0) + 1
+        if c_null:
+            stats["wrap_outframe_after_refused_request_compared"] = stats.get("wrap_outframe_after_refused_request_compared", 0) + 1
+        if ofa != wd.get("of"):
+            diffs.append(f"decoder_alignment ({'refused, NULL' if c_null else 'answered'}) left acmod output_frame at {ofa}, "
+                         f"the wrapper model at {wd.get('of')} (request made at {outframe}): the first pass will not continue "
+                         "where it stopped")
+    if int(wd.get("nkeep", 0)) < int(wd.get("nseg", 0)):
+        stats["wrap_dropped_nondict_segments"] += 1
+    if not diffs:
+        stats["wrap_agree"] += 1
+        return []
+    return [{"what": "wrapper model (Wrap.request over the request sequence: reuse shortcut, dictionary filter, "
+                     "T = min(output_frame, prev_ef + 1), rewind, start_utt/end_utt) differs from decoder_alignment: " + diffs[0],
+             "detail": {"tag": tag, "differences": diffs, "model": wl,
+                        "first_pass": [l for l in hb if l.startswith("FP ")][:12]},
+             "impl": False, "key": None, "tie": True}]
+
+
 def judge_block(case, hb, db, ci_names, stats):
     """evaluate one request block; returns a list of problems:
     {what, detail, impl (bool: the implementation breaks the property on this input), key (finding key or None),
@@ -476,6 +582,11 @@ def judge_block(case, hb, db, ci_names, stats):
         stats["null_results"] += 1
         if not fpw:
             stats["null_no_words"] += 1
+            if outframe > 0 and tag != "final":
+                # a legitimately refused request in the middle of an utterance, frames already searched: what follows must
+                # be unaffected (later requests of the same case are judged against the first pass as usual)
+                stats["extra"]["refused mid-utterance requests after >=1 frame searched"] = \
+                    stats["extra"].get("refused mid-utterance requests after >=1 frame searched", 0) + 1
         elif not can_rewind:
             stats["null_circular_buffer"] += 1
         else:
@@ -486,6 +597,8 @@ def judge_block(case, hb, db, ci_names, stats):
             probs.append({"what": "a second call of decoder_alignment handed out an alignment after the first call failed",
                           "detail": {"tag": tag, "words": hW[:4]}, "impl": True, "key": None, "tie": False})
         if not hW:
+            if db is not None:
+                probs += judge_wrap(hb, db, tag, outframe, a, reuse, hW, stats)
             for jl in (l.split() for l in hb if l.startswith("J ")):
                 stats["json_calls"] += 1
                 stats["json_null"] += int(jl[6] == "null")
@@ -516,6 +629,7 @@ def judge_block(case, hb, db, ci_names, stats):
     if db is None:
         probs.append({"what": "driver produced no block", "detail": hb[0], "impl": False, "key": None, "tie": True})
         return probs
+    probs += judge_wrap(hb, db, tag, outframe, a, reuse, hW, stats)
     ok = next((l for l in db if l.startswith("OK ")), None)
     okd = kv(ok) if ok else {}
     skip = bool(case.get("tmatskip"))
@@ -528,6 +642,14 @@ def judge_block(case, hb, db, ci_names, stats):
         probs.append({"what": "the alignment returned through the iterator API violates the hierarchy predicate AlignOK",
                       "detail": {"checker": ok, "first_pass": fpw, "words": [w[1:7] for w in hW]}, "impl": True,
                       "key": None, "tie": False})
+    tre = next((l for l in db if l.startswith("TREE ")), None)
+    if tre and a.startswith("A ok"):
+        td = kv(tre)
+        stats["tree_hyp_blocks"] += 1
+        if td.get("hsen") != "1" or td.get("mexp") != "1":
+            probs.append({"what": "hypotheses of C04_model_tree_alignOK do not hold on this request (hsen: the checker's senOK "
+                                  "accepts the senones of the populated phones; mexp: modelExpSen = expSen of the harness)",
+                          "detail": tre, "impl": False, "key": None, "tie": True})
     bad = [l for l in db if l.startswith("BAD")]
     if bad:
         probs.append({"what": "driver could not parse the dump", "detail": bad, "impl": False, "key": None, "tie": True})
@@ -593,6 +715,26 @@ def judge_block(case, hb, db, ci_names, stats):
                     probs.append({"what": "renormalisation probe: the step model started at the same entry score does not "
                                           "reproduce the token stack of the real state_align_search_step (renormalize_hmms)",
                                   "detail": rst, "impl": False, "key": None, "tie": True})
+        dst = next((l for l in db if l.startswith("DSTEP ")), None)
+        if dst:
+            dd = kv(dst)
+            if dd.get("na") != "1":
+                stats["dead_probe_blocks"] += 1
+                k = ("alive" if dd.get("alive") == "1" else
+                     "dead, exit history -1" if dd.get("outh") == "-1" else "dead, exit history not -1")
+                stats["dead_probe"][k] = stats["dead_probe"].get(k, 0) + 1
+                if dd.get("eq") != "1" or dd.get("hyp") != "1" or dd.get("renorm") != "0":
+                    probs.append({"what": "dead-final-state probe: the step model over the first Td dumped frames does not reproduce "
+                                          "the truncated real pass (token stack, exit history/score), or a hypothesis of "
+                                          "C04_dead_final_no_alignment is false on the dumped arrays", "detail": dst,
+                                  "impl": False, "key": None, "tie": True})
+                elif dd.get("finish") != dd.get("cfinish"):
+                    probs.append({"what": "dead-final-state probe: state_align_search_finish and the model's finish disagree on "
+                                          "the truncated pass", "detail": dst, "impl": False, "key": None, "tie": True})
+                elif dd.get("finish") != dd.get("alive"):
+                    probs.append({"what": "dead-final-state probe: finish succeeds although the exit score is dead, or fails "
+                                          "although it is alive (contradicts C04_dead_final_no_alignment / C04_alignStep_WFTokens "
+                                          "whose hypotheses hold)", "detail": dst, "impl": False, "key": None, "tie": True})
         T = int(hd.get("nframe", 0))
         stats["frames"].append(T)
         stats["states"].append(len(hS))
@@ -786,7 +928,9 @@ def new_stats():
             "step_manual_pass_equals_decoder_pass": 0, "step_model_not_applicable": 0, "score_xword_context": 0, "score_first_pass_pruned": 0, "crashes": 0, "grammar_rejected": 0,
             "renorm_probe_blocks": 0, "renorm_probe_fired": 0, "renorm_probe_fired_and_alive": 0,
             "json_calls": 0, "json_null": 0, "json_lines": 0, "json_level": {}, "json_start": {}, "json_frate": {},
-            "json_state_level_nonzero_start": 0, "json_lean_ok": 0, "json_bad": 0}
+            "json_state_level_nonzero_start": 0, "json_lean_ok": 0, "json_bad": 0,
+            "tree_hyp_blocks": 0, "dead_probe_blocks": 0, "dead_probe": {}, "wrap_requests": 0, "wrap_agree": 0, "wrap_c1": {}, "wrap_c2": {}, "wrap_kind": {}, "wrap_partial_T_lt_output_frame": 0,
+            "wrap_first_call_reused_earlier_object": 0, "wrap_dropped_nondict_segments": 0}
 
 
 def evaluate(c, binp, cases, stats, label):
@@ -824,6 +968,15 @@ def evaluate(c, binp, cases, stats, label):
                     stats["crashes"] += 1
                     opn = r.get("open")
                     in_align = bool(opn) and "decoder_alignment" in r["stderr"]
+                    if not in_align and r["blocks"] and not cs["id"].endswith("_noreq"):
+                        # the first pass aborted AFTER alignment requests of this case were answered (possibly refused): the
+                        # same case without the requests made before the end of the utterance tells whether the request did it
+                        after = request_side_effect(binp, model, cs, r)
+                        if after is not None:
+                            stats["crashes_after_alignment_request"] = stats.get("crashes_after_alignment_request", 0) + 1
+                            probs.append(after)
+                            out[cs["id"]] = probs
+                            continue
                     probs.append({"what": "sanitizer report / assertion / abort inside the library during an alignment request"
                                   if in_align else
                                   "the library aborted outside decoder_alignment (first pass / set-up): harness error to "
@@ -834,6 +987,27 @@ def evaluate(c, binp, cases, stats, label):
                                   "tie": not in_align})
             out[cs["id"]] = probs
     return out
+
+
+def request_side_effect(binp, model, cs, r):
+    """differential for an abort in the first pass that follows alignment requests: run the case again without the requests
+    made inside the utterance (partial / early / pre-end).  When that run completes, the (answered or refused) request left
+    the decoder in a state in which feeding more audio aborts — no later alignment of this utterance can be obtained, the
+    clause "holds for partial results and for the final result" fails on this concrete input."""
+    cs2 = {**cs, "id": cs["id"] + "_noreq", "partials": [], "early": 0, "preend": 0}
+    try:
+        _, res2 = run_cases(binp, model, [cs2])
+    except Exception:
+        return None
+    r2 = res2.get(cs2["id"])
+    if r2 is None or r2["crash"]:
+        return None
+    answered = [(b[0].split()[2], next((l.split()[1] for l in b if l.startswith("A ")), "?")) for b in r["blocks"]]
+    return {"what": "the library aborted in the first pass after alignment requests of this utterance had been answered; "
+                    "the same case without the requests inside the utterance runs to completion: a request (refused or "
+                    "answered) is not side-effect free and no later / final alignment of the utterance exists",
+            "detail": {"exit_code": r["rc"], "requests_answered_before_the_abort(tag, result)": answered[-12:],
+                       "stderr": r["stderr"][-1200:]}, "impl": True, "key": None, "tie": False}
 
 
 def shrink(c, binp, case, probs):
@@ -941,10 +1115,15 @@ def check(c):
                 allok = False
     ncases = 36 if c.tier == "quick" else 700
     cases = [gen_case(c.rng, i, c.tier, stats) for i in range(ncases)]
+    prng = vlib.Rng(c.seed * 1000003 + 606).fork()      # early-polling family: own stream too
+    cases += [gen_poll_case(prng, i, c.tier, stats) for i in range(4 if c.tier == "quick" else 90)]
+    ncases = len(cases)
+    drng = vlib.Rng(c.seed * 1000003 + 909)      # dead-final-state probe: own stream too
     jrng = vlib.Rng(c.seed * 1000003 + 404)      # own stream: the generated alignment cases stay what they were
     for cs in cases:
         cs["json"] = gen_json(jrng)
         cs["renormprobe"] = jrng.choice(RENORM_STARTS) if cs.get("dumpsen") and not cs.get("tmatskip") else 0
+        cs["deadprobe"] = drng.choice([1, 2, 2, 3, 3, 5]) if cs.get("dumpsen") and not cs.get("tmatskip") else 0
         # other frame rates than the models' 100 (the JSON times are start + frame/frate): 1/50, 1/125 and 1/200 s are exact
         # at three decimals, 1/90 s is not
         if jrng.chance(0.12):
@@ -1000,6 +1179,22 @@ def check(c):
     c.oblige("correspondence: populate + windows + backtrace + propagate of the model = real code on every dumped token stack; "
              "WFTokens and NoSkip hold on the dumped data; the step model reproduces the token stack from the dumped senone scores",
              allok)
+    c.oblige("dead-final-state probe (C04_dead_final_no_alignment on the real search): every truncated hand-stepped pass is "
+             "reproduced by the step model, state_align_search_finish fails on it exactly when the model's exit score is dead; "
+             "when >= 6 probes ran, a dead exit state with history -1, a dead one with a history that is not -1, and an alive "
+             "one were all seen", stats["dead_probe_blocks"] < 6 or all(
+                 stats["dead_probe"].get(k, 0) > 0 for k in ("alive", "dead, exit history -1", "dead, exit history not -1")),
+             {"dead_probe_blocks": stats["dead_probe_blocks"], **stats["dead_probe"]})
+    c.oblige("correspondence: the wrapper model Wrap.request, run over the request sequence of every case (final, partial, "
+             "pre-end, later utterances, repeated call), predicts what decoder_alignment did in EVERY request: NULL / alignment, "
+             "the (id, start, duration) word list, the number of frames the aligner saw, same / new object on the repeated "
+             "call; hypotheses pos/cov/pron of C04_wrapper_words_are_first_pass hold on the FP lines; at least one repeated "
+             "call was answered by the reuse shortcut and (when any partial request returned an alignment) at least one was not",
+             stats["wrap_requests"] == stats["wrap_agree"] and stats["wrap_requests"] == stats["requests"] and
+             (stats["alignments"] == 0 or stats["wrap_c2"].get("reuse", 0) > 0),
+             {k: stats[k] for k in ("wrap_requests", "wrap_agree", "wrap_c1", "wrap_c2", "wrap_kind",
+                                    "wrap_partial_T_lt_output_frame", "wrap_first_call_reused_earlier_object",
+                                    "wrap_dropped_nondict_segments")})
     s = summarise(stats)
     c.cov["explanation"] = (
         "Theorems (all inputs, any number of words/phones/frames): populate_structure, backtrace_partition, "
@@ -1024,10 +1219,22 @@ def check(c):
         "JSON observation point: json_* counters; C04_json_time_iff / C04_json_hierarchy_in_time (the affine map "
         "frame -> start + frame/frate preserves and reflects the partition and contiguity clauses), "
         "C04_json_recoverStart_sound / recoverDur_sound (the integer frame recovery from the %.3f text is sound and "
-        "unambiguous).  Not modelled: the decoder_alignment wrapper itself (filter of non-dictionary segments, "
-        "T = last first-pass end frame + 1 (D29), the reuse shortcut, acmod_rewind) - its effects are observed: NULL only "
-        "without words/rewind, second call returns the same object or an equal alignment, later utterances, and the JSON "
-        "calls (which call decoder_alignment again) must report the dumped alignment.")
+        "unambiguous).  Dead final state (audit B6a): C04_dead_final_no_alignment / C04_alignment_implies_final_alive / "
+        "C04_model_run_alignment_iff_alive - finish on the token stack of Step.run returns an alignment exactly when the "
+        "final out-score is alive; tie: `alive` is evaluated on every returned alignment, and the dead-final-state probe "
+        "(directive deadprobe, lines DCUT/DFINAL/DTOK/DFIN, driver line DSTEP) stops a hand-stepped real pass 1, 2, 3.. "
+        "frames after the last phone's window opens, the step model must reproduce it and state_align_search_finish must "
+        "fail exactly when the model's exit score is dead (dead_probe counters: exit history -1, exit history not -1, alive).  "
+        "Wrapper (audit B6c): decoder_alignment is modelled (Model/AlignWrap.lean: reuse shortcut, dictionary filter + "
+        "contiguity assertion, rewind, replay loop with the D29 guard, finish; decoder_start_utt / decoder_end_utt (D70) / "
+        "more audio between requests); theorems C04_wrapper_frames, C04_wrapper_words_tile, "
+        "C04_wrapper_words_are_first_pass, C04_wrapper_model_pass2_ok, C04_wrapper_reuse, C04_wrapper_repeated_call; tie: "
+        "the driver carries the wrapper state over the request sequence of every case and its prediction is diffed with "
+        "the implementation in every request (wrap_* counters).  In the wrapper model the second pass is a parameter, "
+        "instantiated by the driver with populate/finish on the token stack dumped in that request; failures of "
+        "alignment_populate / state_align_search_init / search_module_start / search_module_step are not modelled.  "
+        "Full tree predicate: C04_model_tree_alignOK (all 11 clauses of AlignOK for the model's result, expSen = "
+        "modelExpSen, hypothesis hsen) - both evaluated per request (driver line TREE: hsen, mexp).")
     c.cov.update({"evaluations": stats["requests"], "distinct_nontrivial": stats["alignments"],
                   "rule": "alignment requests (final and partial) on generated (grammar, clip, mode, chunking, configuration) "
                           "cases; non-trivial = decoder_alignment returned an alignment (>= 1 word) whose token stack was dumped, "
